@@ -53,7 +53,7 @@ Check (C16_compat_args_tools : forall tool args, In tool COMPAT_COMMANDS ->
 
 (* ---- through the file bytes (Model/CliFile.v, Proofs/CliEndToEnd.v) ---- *)
 From BT Require Import Base.LE Base.Float Model.RTree Model.AutoSql Model.BigBedWrite Model.BBIReadBed Model.CliFile.
-From BT Require Import Proofs.RTreeCodec Proofs.BigWigFileChroms Proofs.BigWigFileInput Proofs.AcceptRules Proofs.CliEndToEnd.
+From BT Require Import Proofs.RTreeCodec Proofs.BigWigFileChroms Proofs.BigWigFileInput Proofs.AcceptRules Proofs.CliEndToEnd Proofs.CliEndToEndBridge.
 From BT Require Model.Accept Model.AcceptBed Proofs.BigWigFileRoundTrip Proofs.BedCodec Proofs.BedReadInfo Proofs.BedEndToEnd.
 Check (C16_bedgraph_file_roundtrip : forall pf fp o two_pass cs_text in_text sizes items,
   parse_chrom_sizes cs_text = Ok sizes -> mapM (parse_bedgraph pf) (lines in_text) = Ok items ->
@@ -122,3 +122,17 @@ Check (C16_bed_file_hyps : forall o cs_text in_text sizes items f,
   Forall (fun it : name * bed_entry => BedReadInfo.no_nul_name (fst it) /\ Nlen (fst it) < U32 /\ BedCodec.no_nul (be_rest (snd it))
                                        /\ ~ (be_start (snd it) = 0 /\ be_end (snd it) = 0)) items ->
   Nlen f <= U64 -> BedEndToEnd.file_hyps o sizes (to_bitems items) f).
+Check (C16_file_matches_list_model_bigwig : forall pf fp o two_pass cs_text in_text sizes items file,
+  parse_chrom_sizes cs_text = Ok sizes -> mapM (parse_bedgraph pf) (lines in_text) = Ok items ->
+  BigWigFileRoundTrip.opts_ok o -> BigWigFileRoundTrip.input_ok sizes items ->
+  bedgraph_to_bigwig pf cs_text in_text = Ok file ->
+  exists bs, bedgraphtobigwig_file pf fp o two_pass cs_text in_text = Ok bs /\
+    (Nlen bs < U64 -> forall infl ips chrom st en, (0 < ips)%nat ->
+       bigwigtobedgraph_records infl bs chrom st en = Ok (bigwig_to_bedgraph ips file chrom st en))).
+Check (C16_file_matches_list_model_bigbed : forall fp o two_pass user_autosql cs_text in_text sizes items file,
+  parse_chrom_sizes cs_text = Ok sizes -> mapM parse_bed (lines in_text) = Ok items ->
+  (forall s, user_autosql = Some s -> AcceptBed.has_nul s = false) -> Accept.opts_ok o = true ->
+  bed_to_bigbed (match user_autosql with Some _ => true | None => false end) cs_text in_text = Ok file ->
+  exists f, bedtobigbed_file fp o two_pass user_autosql cs_text in_text = Ok f /\
+    (BedEndToEnd.file_hyps o sizes (to_bitems items) f -> forall infl ips chrom st en, (0 < ips)%nat ->
+       bigbedtobed_records infl f chrom st en = Ok (bigbed_to_bed ips file chrom st en))).
